@@ -3,6 +3,7 @@ package main
 import (
 	"encoding/json"
 	"fmt"
+	"sync/atomic"
 	"time"
 
 	"verif/harness/internal/core"
@@ -223,7 +224,14 @@ func checkC15(c *core.Ctx) []core.Floor {
 					return
 				}
 				if lruseq.Hash(ref) != got.Hashes[idx] {
-					reportLRU(c, drv, sp, n, steps, ref)
+					// each report re-runs the sequence in a process of its own:
+					// the first 24 disagreements are reported in full, the rest
+					// are counted (the run fails either way)
+					if atomic.AddInt64(&c15Reports, 1) <= 24 {
+						reportLRU(c, drv, sp, n, steps, ref)
+					} else {
+						c.Count("disagreeing_sequences_not_re_run", 1)
+					}
 				}
 				idx++
 			})
@@ -253,6 +261,8 @@ func checkC15(c *core.Ctx) []core.Floor {
 	c.Sample(3, map[string]interface{}{"exhaustive_example": fmt.Sprint(lruseq.Enum(12345, exh[0].depth, exh[0].keys)), "random_example_prefix": fmt.Sprint(lruseq.Random(7, 12, 6, 50))})
 	return []core.Floor{{Key: "evictions_in_model", Min: 1000}, {Key: "refusals_in_model", Min: 100}, {Key: "dirty_entries_skipped_by_eviction", Min: 100}, {Key: "random_sequences", Min: int64(nRandom)}, {Key: "sequences_at_the_default_capacity_of_10000", Min: 4}}
 }
+
+var c15Reports int64
 
 // reportLRU re-runs one disagreeing sequence with the full trace and reports
 // the first differing step.
